@@ -77,7 +77,11 @@ def _coerce(v, kind):
             if v != v or v in (float('inf'), float('-inf')):
                 raise ValueError("cannot convert float NaN/inf to integer")
             return i64(int(v))
-        raise ModelGap("storing a symbolic real into an integer array")
+        # numpy casts by truncating toward zero (NaN flags are not representable: be honest about those)
+        if isinstance(v, SymFloat) and v.nan is None:
+            import z3 as _z3
+            return SymInt(_z3.If(v.t >= 0, _z3.ToInt(v.t), -_z3.ToInt(-v.t)))
+        raise ModelGap("storing a symbolic NaN-able real into an integer array")
     if kind == 'b':
         if k == 'b':
             return v
@@ -1314,8 +1318,14 @@ def unique(a):
     return ndarray._from_flat(out, (len(out),), a.kind)
 
 
-def diff(a, n=1, prepend=None, append=None):
+def diff(a, n=1, axis=-1, prepend=None, append=None):
     a = asarray(a)
+    if n != 1:
+        raise ModelGap("diff n != 1")
+    if a.ndim == 2 and prepend is None and append is None:
+        ax = axis % 2
+        hi, lo = (a[1:], a[:-1]) if ax == 0 else (a[:, 1:], a[:, :-1])
+        return (hi != lo) if a.kind == 'b' else (hi - lo)
     if a.ndim != 1:
         raise ModelGap("diff ndim != 1")
     parts = []
